@@ -53,7 +53,7 @@ from sim.env import SimEnv, UNIT
 ID = "C36"
 LEVEL = "exploration"
 QUICK_N = 160000
-THOROUGH_N = 5000000
+THOROUGH_N = 6000000
 CHUNK = 50  # small: the runner keeps only the first 6 violating scenarios of a chunk, and the
 # known cancelled-input defects would otherwise crowd every other key out
 RULE = ("gen(seed): combinator in {multi list/dict, WaitIterator args/kwargs x next()/async-for, "
@@ -64,7 +64,8 @@ RULE = ("gen(seed): combinator in {multi list/dict, WaitIterator args/kwargs x n
         "units, deadlines placed at completion time -1/0/+1 units, consumer pauses, late+cost tapes. "
         "non-trivial (measured from completion stamps) = multi/WaitIterator: >=2 distinct inputs "
         "completed after the call in different loop iterations; with_timeout/chain_future: the "
-        "input completed after the call while the output was pending; distinct = scenario hash")
+        "input/source completed after the call (callback path, not the inline one); "
+        "distinct = scenario hash")
 COMPONENTS = {
     "real": ["tornado.gen.multi/multi_future", "tornado.gen.WaitIterator", "tornado.gen.with_timeout",
              "tornado.concurrent.chain_future/future_add_done_callback/future_set_*",
